@@ -1,5 +1,92 @@
 import ZoektModel.Basic.Proto
+import ZoektModel.C11.Spec
 namespace ZoektModel.C11
-/-- stub: no model driver for C11 yet -/
-def main : IO Unit := ZoektModel.Proto.runLines (fun _ => ZoektModel.Proto.badCase "no model driver for C11")
+open ZoektModel ZoektModel.Proto
+
+def render {α} (f : α → String) : Outcome α → String
+  | .ok a => "ok:" ++ f a
+  | .err _ => "err"
+  | .panic _ => "panic"
+  | .diverge => "diverge"
+
+/-- Go's `fmt.Sprintf("%x", s)`: empty for the empty string -/
+def hexNoDash (b : Bytes) : String := if b.isEmpty then "" else bytesToHex b
+
+def readerOps (f : File) : List String → Rd → Option (List String × Rd)
+  | [], r => some ([], r)
+  | op :: ops, r =>
+    let step : Option (String × Rd) :=
+      match op with
+      | "u32" => let (o, r') := rdFixed f 4 r; some (match o with | .ok v => toString v | .err _ => "err" | .panic _ => "PANIC" | .diverge => "DIVERGE", r')
+      | "u64" => let (o, r') := rdFixed f 8 r; some (match o with | .ok v => toString v | .err _ => "err" | .panic _ => "PANIC" | .diverge => "DIVERGE", r')
+      | "varint" => let (o, r') := rdVarint f r; some (match o with | .ok v => toString v | .err _ => "err" | .panic _ => "PANIC" | .diverge => "DIVERGE", r')
+      | "str" => let (o, r') := rdStr f r; some (match o with | .ok v => hexNoDash v | .err _ => "err" | .panic _ => "PANIC" | .diverge => "DIVERGE", r')
+      | _ => none
+    match step with
+    | none => none
+    | some (s, r') => (readerOps f ops r').map fun (ss, rf) => (s :: ss, rf)
+
+def withFile (hex : String) (k : File → String) : String :=
+  match hexToBytes? hex with
+  | none => "?"
+  | some content =>
+    match openFile content with
+    | .ok f => k f
+    | _ => "err"
+
+def model (inp : String) : Option String :=
+  match fields inp with
+  | ["fsd", h] => (hexToBytes? h).map fun d => render showNatList (fromSizedDeltas d)
+  | ["fsd16", h] => (hexToBytes? h).map fun d => render showNatList (fromSizedDeltas16 d)
+  | ["fd", h] => (hexToBytes? h).map fun d => render showNatList (fromDeltas d)
+  | ["uds", h] => (hexToBytes? h).map fun d => render showNatList (unmarshalDocSections d)
+  | ["pit", h, ls] => do
+    let d ← hexToBytes? h
+    let ls ← natList? ls
+    pure (render showNatList (pIterRun d ls))
+  | ["rd", h, off, sz] => do
+    let off ← off.toNat?
+    let sz ← sz.toNat?
+    pure (withFile h fun f => render bytesToHex (f.read off sz))
+  | ["reader", h, off, ops] => do
+    let off ← off.toNat?
+    pure (withFile h fun f =>
+      match readerOps f (ops.splitOn ",") ⟨off⟩ with
+      | none => "?"
+      | some (ss, r) =>
+        if ss.contains "PANIC" then "panic" else if ss.contains "DIVERGE" then "diverge"
+        else "ok:" ++ ",".intercalate ss ++ "@" ++ toString r.off)
+  | ["hdr", h] => some (withFile h fun f =>
+      render (fun (x : SimpleSection × Nat × Nat) => s!"{x.1.off},{x.1.sz},{x.2.1},{x.2.2}") (readHeader f))
+  | ["su32", h, off, sz] => do
+    let off ← off.toNat?
+    let sz ← sz.toNat?
+    pure (withFile h fun f => render showNatList (readSectionBE 4 f ⟨off, sz⟩))
+  | ["su64", h, off, sz] => do
+    let off ← off.toNat?
+    let sz ← sz.toNat?
+    pure (withFile h fun f => render showNatList (readSectionBE 8 f ⟨off, sz⟩))
+  | ["comp", h, pos] => do
+    let pos ← pos.toNat?
+    pure (withFile h fun f =>
+      render (fun (c : Compound) => s!"{c.data.off},{c.data.sz};{showNatList c.offsets};{showNatList (relativeIndex c)}") (readCompound f ⟨pos⟩))
+  | ["bt", h, off, sz] => do
+    let off ← off.toNat?
+    let sz ← sz.toNat?
+    -- fewer than btreeBucketSize = 1024 ngrams: a single leaf, whatever their order
+    pure (withFile h fun f => render (fun (n : Nat) => if n < 1024 then "1" else "unsupported") (btreeLoad f ⟨off, sz⟩))
+  | _ => none
+
+def handle (line : String) : String :=
+  let (inp, impl) := splitCase line
+  match model inp with
+  | none => badCase "op"
+  | some m =>
+    if m == "?" then badCase "hex"
+    else if !(checkP impl) then
+      let cls := if impl.startsWith "panic" then "panic" else if impl.startsWith "diverge" then "diverge" else "other"
+      specFail m s!"prim-{cls}:{(fields inp).headD ""}"
+    else answer m
+
+def main : IO Unit := runLines handle
 end ZoektModel.C11
